@@ -119,7 +119,9 @@ func (req *Request) parse(con *Connection) {
 		req.headers.http_headers_add(key, value)
 	}
 	//剩下到就是 body
-	req.body = p
+	// The header loop stops at the blank line that separates headers from the
+	// body; the separator itself is not part of the body.
+	req.body = strings.TrimPrefix(p, "\r\n")
 }
 
 //GetMethod d
